@@ -221,16 +221,16 @@ def full_map(h):
     plus keys that only occur in `last` (primed, empty queue)"""
     m = []
     idx = {}
-    if h["kind"] == "ksingle":
-        for k, _ in (h.get("last") or []):
-            if k not in idx:
-                idx[k] = len(m)
-                m.append([k, []])
     for k, q in h["m"]:
         if k not in idx:
             idx[k] = len(m)
             m.append([k, []])
         m[idx[k]][1] += list(q)
+    if h["kind"] == "ksingle":
+        for k, _ in (h.get("last") or []):
+            if k not in idx:
+                idx[k] = len(m)
+                m.append([k, []])
     return m
 
 
